@@ -49,6 +49,9 @@ THEOREMS = [
     "Pydjinni.Gen.objc_interface_parameter",
     "Pydjinni.Gen.objcTypeDecl_eq_ref",
     "Pydjinni.Gen.cpp_api_fidelity",
+    "Pydjinni.Gen.cli_api_fidelity",
+    "Pydjinni.Gen.objc_api_fidelity",
+    "Pydjinni.Gen.java_api_fidelity_partial",
     "Pydjinni.Gen.cpp_api_members_in_order",
     "Pydjinni.Gen.cpp_api_methods_in_order",
 ]
